@@ -354,7 +354,7 @@ class Reader:
         """
         digital = self.read_sync_digital(_slice)
         analog = self.read_sync_analog(_slice)
-        if analog is not None and floor_percentile:
+        if analog is not None and floor_percentile and analog.shape[0] > 0:
             analog -= np.percentile(analog, 10, axis=0)
         if analog is None:
             return digital
